@@ -5,8 +5,10 @@ import (
 	"fmt"
 	"os"
 	"path/filepath"
+	"sort"
 	"strings"
 	"testing"
+	"time"
 
 	"github.com/codelaboratoryltd/bng/pkg/radius"
 	"pgregory.net/rapid"
@@ -124,7 +126,36 @@ func judge(t fataler, h *history, sel *crashSel, o *outcome, mode string) {
 	if len(h.Plan) > 0 {
 		cls = append(cls, "has:outage-pattern")
 	}
-	nt := o.stopDown || ntCrash || o.big
+	// observed, not asserted (the statement orders Stop against Start only): an Interim-Update accepted after
+	// the session's Stop — a queued interim retried late, or one still travelling when the Stop was sent
+	stopAt, obsSeen := map[string]int{}, map[string]bool{}
+	for _, e := range o.log {
+		if e.Type == tStop && e.Accepted {
+			if _, ok := stopAt[e.SID]; !ok {
+				stopAt[e.SID] = e.Seq
+			}
+		}
+		if at, ok := stopAt[e.SID]; ok && e.Type == tInterim && e.Accepted && e.Seq > at {
+			how := "obs:interim-accepted-after-stop/queued-retry"
+			if e.Send != nil && e.Send.Site == "interim" {
+				how = "obs:interim-accepted-after-stop/in-flight"
+			}
+			if !obsSeen[how] {
+				obsSeen[how] = true
+				cls = append(cls, how)
+			}
+			stopAt[e.SID] = 1 << 30 // once per session
+		}
+	}
+	lc, slowRetry, lostReq := latencyClasses(o)
+	cls = append(cls, lc...)
+	if slowRetry {
+		cls = append(cls, "nt:retry-in-flight-beyond-base-delay")
+	}
+	if lostReq {
+		cls = append(cls, "nt:request-lost-by-timeout")
+	}
+	nt := o.stopDown || ntCrash || o.big || slowRetry || lostReq
 	hb, _ := json.Marshal(h)
 	selS := ""
 	if sel != nil {
@@ -133,6 +164,69 @@ func judge(t fataler, h *history, sel *crashSel, o *outcome, mode string) {
 	vstat.Case(nt, vstat.Hash(hb, selS), func() any {
 		return map[string]any{"history": h.String(), "crash": selS, "records": len(o.log), "markers": len(o.markers)}
 	}, cls...)
+}
+
+// latencyClasses: which latency classes and slow-server shapes the run actually contained (per case, from
+// the sends seen at the dial hook and the records they became).
+func latencyClasses(o *outcome) (cls []string, slowRetry, lostReq bool) {
+	set := map[string]bool{}
+	rejected := map[*sendRec]bool{}
+	typ := map[*sendRec]uint32{}
+	for _, e := range o.log {
+		if e.Send != nil {
+			typ[e.Send] = e.Type
+			if !e.Accepted {
+				rejected[e.Send] = true
+			}
+		}
+	}
+	any := false
+	for _, s := range o.sends {
+		if s.LatMs > 0 {
+			any = true
+		}
+		lost := s.Lost && s.LatMs >= clientTimeoutMs
+		set[latClass(s.LatMs, lost)] = true
+		if s.LatMs > 0 {
+			set["lat-on:"+s.Site] = true
+		}
+		if lost {
+			lostReq = true
+		}
+		if s.Site == "retry" && !s.Lost && s.End-s.Begin > 1000*time.Millisecond {
+			slowRetry = true
+			if s.End-s.Begin > 2000*time.Millisecond {
+				set["slow:retry-in-flight>base+tick"] = true
+			}
+			if typ[s] == tStop {
+				set["slow:queued-stop-in-flight>base"] = true
+			}
+			// another record failed (rejected or lost) and was queued while this attempt occupied the processor
+			for _, q := range o.sends {
+				if q != s && q.Epoch == s.Epoch && q.Site != "retry" && (rejected[q] || q.Lost) && q.End > s.Begin && q.End < s.End {
+					set["slow:record-queued-while-retry-in-flight"] = true
+				}
+			}
+		}
+		if s.Site == "interim" && !s.Lost && s.End > s.Begin {
+			for _, q := range o.sends {
+				if q.SID == s.SID && (q.Site == "stop" || q.Site == "drain") && q.Begin >= s.Begin && q.Begin < s.End {
+					set["slow:stop-while-interim-in-flight"] = true
+				}
+			}
+		}
+	}
+	if any {
+		set["has:latency"] = true
+	}
+	if slowRetry {
+		set["slow:retry-in-flight>base"] = true
+	}
+	for k := range set {
+		cls = append(cls, k)
+	}
+	sort.Strings(cls)
+	return cls, slowRetry, lostReq
 }
 
 func uniqueMarkers(ms []markerRec) []crashSel {
@@ -152,7 +246,7 @@ func uniqueMarkers(ms []markerRec) []crashSel {
 func TestPropHistories(t *testing.T) {
 	vstat.Checks(1000, 20000)
 	rapid.Check(t, func(rt *rapid.T) {
-		h := genHistory(rt, genMode{graceful: true, maxOps: 12})
+		h := genHistory(rt, genMode{graceful: true, maxOps: 12, latPct: 50})
 		judge(rt, h, nil, execute(t, h, nil), "no-crash")
 	})
 }
@@ -161,7 +255,7 @@ func TestPropHistories(t *testing.T) {
 func TestPropCounters(t *testing.T) {
 	vstat.Checks(600, 10000)
 	rapid.Check(t, func(rt *rapid.T) {
-		h := genHistory(rt, genMode{graceful: true, maxOps: 10, bigCtrs: true})
+		h := genHistory(rt, genMode{graceful: true, maxOps: 10, bigCtrs: true, latPct: 30})
 		h.Cfg.Interim, h.Cfg.InterimS = true, 10
 		judge(rt, h, nil, execute(t, h, nil), "counters")
 	})
@@ -172,8 +266,30 @@ func TestPropCounters(t *testing.T) {
 func TestPropCrashOps(t *testing.T) {
 	vstat.Checks(1000, 20000)
 	rapid.Check(t, func(rt *rapid.T) {
-		h := genHistory(rt, genMode{graceful: true, crashOps: true, maxOps: 12})
+		h := genHistory(rt, genMode{graceful: true, crashOps: true, maxOps: 12, latPct: 50})
 		judge(rt, h, nil, execute(t, h, nil), "crash-op")
+	})
+}
+
+// TestPropSlowServer: histories against a slow RADIUS server — every history carries per-request latencies
+// (virtual time) weighted to the region between RetryBaseDelay + one retry tick and the client timeout, with
+// Stops that fail first so that records sit in the retry queue while other sends are in flight.  Decides
+// clause (2) for the retry queue's two delivery paths (channel, ticker) and clauses (1) (3) under latency.
+func TestPropSlowServer(t *testing.T) {
+	vstat.Checks(1200, 24000)
+	rapid.Check(t, func(rt *rapid.T) {
+		h := genHistory(rt, genMode{graceful: true, maxOps: 12, latPct: 100, slow: true})
+		judge(rt, h, nil, execute(t, h, nil), "slow-server")
+	})
+}
+
+// TestPropSlowServerCrashOps: the same with crashes at quiescent points (requests travelling at the moment of
+// the crash are dropped with the process).
+func TestPropSlowServerCrashOps(t *testing.T) {
+	vstat.Checks(800, 16000)
+	rapid.Check(t, func(rt *rapid.T) {
+		h := genHistory(rt, genMode{graceful: true, crashOps: true, maxOps: 12, latPct: 100, slow: true})
+		judge(rt, h, nil, execute(t, h, nil), "slow-server-crash-op")
 	})
 }
 
@@ -208,7 +324,7 @@ func TestPropCrashEnum(t *testing.T) {
 	}
 	vstat.Checks(80, 1500)
 	rapid.Check(t, func(rt *rapid.T) {
-		crashEnum(t, rt, genMode{maxOps: 8, fewAdv: true}, "crash-enum")
+		crashEnum(t, rt, genMode{maxOps: 8, fewAdv: true, latPct: 35}, "crash-enum")
 	})
 }
 
@@ -220,7 +336,7 @@ func TestPropCrashEnumRestarts(t *testing.T) {
 	}
 	vstat.Checks(70, 1200)
 	rapid.Check(t, func(rt *rapid.T) {
-		crashEnum(t, rt, genMode{graceful: true, crashOps: true, maxOps: 7, fewAdv: true, noInterim: true, restarts: true}, "crash-enum-restarts")
+		crashEnum(t, rt, genMode{graceful: true, crashOps: true, maxOps: 7, fewAdv: true, noInterim: true, restarts: true, latPct: 35}, "crash-enum-restarts")
 	})
 }
 
